@@ -39,6 +39,8 @@ def Instr.name {R W D : Type} : Instr R W D → IName
 inductive RLine (R W D : Type) where
   | call (t : Tid) (c : Call R W D)
   | at (t : Tid) (n : IName)
+  /-- `try_write` of `t` failed while nobody held the lock and `u` was queued at it (`Event.spur`) -/
+  | spur (t u : Tid)
 
 /-- the model's answer to a line -/
 inductive Ans where
@@ -57,6 +59,7 @@ def Ans.ok : Ans → Bool
 def RLine.event {R W D : Type} : RLine R W D → Event R W D
   | .call t c => .call t c
   | .at t _ => .step t
+  | .spur t u => .spur t u
 
 section
 variable {C R W D : Type} [DecidableEq R] (ops : DbOps C R W D)
@@ -77,6 +80,10 @@ def replayLine (s : S C R W D) : RLine R W D → S C R W D × Ans
         match next ops s (.step t) with
         | (s', .finished r) => (s', .finished r)
         | (s', _) => (s', .ran)
+  | .spur t u =>
+    match next ops s (.spur t u) with
+    | (s', .finished r) => (s', .finished r)
+    | _ => (s, .misuse)
 
 /-- the whole log: final state and the answers, line by line -/
 def replay (s : S C R W D) : List (RLine R W D) → S C R W D × List Ans
@@ -108,15 +115,25 @@ def Enabled (s : S C R W D) : List (Event R W D) → Prop
   | e :: rest =>
     (match e with
       | .call t c => c.isCode = true ∧ (s.thr t).prog = []
-      | .step t => (s.thr t).prog ≠ [] ∧ blocked s t = false) ∧
+      | .step t => (s.thr t).prog ≠ [] ∧ blocked s t = false
+      | .spur t u => (∃ rest, (s.thr t).prog = .aTryWrite :: rest) ∧ u ≠ t ∧ isQueued (s.thr u).prog = true) ∧
     Enabled (next ops s e).1 rest
 
 theorem replayLine_ok (s : S C R W D) (l : RLine R W D) (h : (replayLine ops s l).2.ok = true) :
     (replayLine ops s l).1 = (next ops s l.event).1 ∧
     (match l.event with
       | .call t c => c.isCode = true ∧ (s.thr t).prog = []
-      | .step t => (s.thr t).prog ≠ [] ∧ blocked s t = false) := by
+      | .step t => (s.thr t).prog ≠ [] ∧ blocked s t = false
+      | .spur t u => (∃ rest, (s.thr t).prog = .aTryWrite :: rest) ∧ u ≠ t ∧ isQueued (s.thr u).prog = true) := by
   cases l with
+  | spur t u =>
+    simp only [replayLine, RLine.event, next] at h ⊢
+    cases hp : (s.thr t).prog with
+    | nil => simp [hp, Ans.ok] at h
+    | cons i rest =>
+      by_cases hc : u ≠ t ∧ isQueued (s.thr u).prog = true
+      · cases i <;> simp [hp, hc, Ans.ok] at h ⊢
+      · cases i <;> simp [hp, hc, Ans.ok] at h
   | call t c =>
     simp only [replayLine] at h ⊢
     by_cases hc : c.isCode = false
@@ -165,6 +182,7 @@ theorem replay_sound (s : S C R W D) (ls : List (RLine R W D)) (h : accepted (re
       · cases l with
         | call t c => exact hen.1
         | «at» t n => rfl
+        | spur t u => rfl
       · exact ih2 e he
     · simp only [List.map_cons, Enabled]
       exact ⟨hen, ih3⟩
@@ -298,6 +316,15 @@ theorem vd_next (s : S C R W D) (e : Event R W D) (h : ∀ t, Vd (s.thr t).prog 
         · rfl
         · exact vd_unwind hm r
       · rw [exec_thr_other ops s t u i rest hu]; exact h u
+  | spur t v =>
+    simp only [next]
+    split
+    · split
+      · by_cases hu : u = t
+        · subst hu; simp [abort, Vd]
+        · simp only [abort, upd_other _ _ _ _ hu]; exact h u
+      · exact h u
+    · exact h u
 
 theorem vd_run (evs : List (Event R W D)) (s : S C R W D) (h : ∀ t, Vd (s.thr t).prog = true) :
     ∀ t, Vd ((run ops s evs).thr t).prog = true := by
